@@ -1576,10 +1576,29 @@ func builderJoin(f *ssa.Function, needSep bool) (bool, string) {
 		}
 		return false, ""
 	}
-	if len(loops) != 1 {
+	// loops that never touch the builder (measuring the text first) play no part
+	var writing []*loopInfo
+	for _, lp := range loops {
+		touches := false
+		for b := range lp.blocks {
+			for _, ins := range b.Instrs {
+				if c, ok := ins.(*ssa.Call); ok {
+					for _, a := range c.Call.Args {
+						if a == bld {
+							touches = true
+						}
+					}
+				}
+			}
+		}
+		if touches {
+			writing = append(writing, lp)
+		}
+	}
+	if len(writing) != 1 {
 		return false, ""
 	}
-	li := loops[0]
+	li := writing[0]
 	domLatches := func(b *ssa.BasicBlock) bool {
 		for _, lt := range li.latch {
 			if !b.Dominates(lt) {
